@@ -244,12 +244,15 @@ pub struct Repair {
     /// K12: every wildcard of a generated pattern becomes a fresh (unused) binder, so that no
     /// pattern has exactly one binder
     pub bind_wildcards: bool,
+    /// C3: a repeated identifier `[K[a], a]` is written with a fresh binder and a separate pin
+    /// step `[K[a], a2], a2 =&a`
+    pub unrepeat: bool,
 }
 
 /// Resolve the repair markers of a rendered source:
 ///   `\u{27E6}P\u{27E7}`                         K7: `P`, or `(P | P)` under `alt`
 ///   `\u{27EA}X\u{27EB}\u{27EC}Y\u{27ED}`      K9: `X` (a partial pattern), or `Y` (the full pattern) under `full`
-pub fn resolve_markers(s: &str, alt: bool, full: bool, bind_wild: bool) -> String {
+pub fn resolve_markers(s: &str, alt: bool, full: bool, bind_wild: bool, unrepeat: bool) -> String {
     let s = &{
         // wildcards first: each becomes `_` or a unique binder
         let mut out = String::new();
@@ -268,30 +271,32 @@ pub fn resolve_markers(s: &str, alt: bool, full: bool, bind_wild: bool) -> Strin
         }
         out
     };
-    const CLOSERS: [char; 3] = ['\u{27E7}', '\u{27EB}', '\u{27ED}'];
-    fn go(cs: &[char], i: &mut usize, alt: bool, full: bool, out: &mut String) {
+    const CLOSERS: [char; 5] = ['\u{27E7}', '\u{27EB}', '\u{27ED}', '\u{2984}', '\u{2986}'];
+    fn go(cs: &[char], i: &mut usize, fl: (bool, bool, bool), out: &mut String) {
+        let (alt, full, unrepeat) = fl;
         while *i < cs.len() {
             let c = cs[*i];
             if c == '\u{27E6}' {
                 *i += 1;
                 let mut inner = String::new();
-                go(cs, i, alt, full, &mut inner);
+                go(cs, i, fl, &mut inner);
                 if alt {
                     out.push_str(&format!("({inner} | {inner})"));
                 } else {
                     out.push_str(&inner);
                 }
-            } else if c == '\u{27EA}' {
+            } else if c == '\u{27EA}' || c == '\u{2983}' {
+                let second = if c == '\u{27EA}' { full } else { unrepeat };
                 *i += 1;
                 let mut x = String::new();
-                go(cs, i, alt, full, &mut x);
-                // expect the opener of the second part
-                if *i < cs.len() && cs[*i] == '\u{27EC}' {
+                go(cs, i, fl, &mut x);
+                // the opener of the second part
+                if *i < cs.len() && (cs[*i] == '\u{27EC}' || cs[*i] == '\u{2985}') {
                     *i += 1;
                 }
                 let mut y = String::new();
-                go(cs, i, alt, full, &mut y);
-                out.push_str(if full { &y } else { &x });
+                go(cs, i, fl, &mut y);
+                out.push_str(if second { &y } else { &x });
             } else if CLOSERS.contains(&c) {
                 *i += 1;
                 return;
@@ -304,8 +309,13 @@ pub fn resolve_markers(s: &str, alt: bool, full: bool, bind_wild: bool) -> Strin
     let cs: Vec<char> = s.chars().collect();
     let mut out = String::new();
     let mut i = 0;
-    go(&cs, &mut i, alt, full, &mut out);
+    go(&cs, &mut i, (alt, full, unrepeat), &mut out);
     out
+}
+
+/// choice marker of the C3 repair: `x` normally, `y` under `unrepeat`
+pub fn unrepeat_choice(x: &str, y: &str) -> String {
+    format!("\u{2983}{x}\u{2984}\u{2985}{y}\u{2986}")
 }
 
 pub fn t(s: &str) -> Node {
@@ -479,7 +489,7 @@ impl Prog {
         self.main.render(rp, &mut m);
         let arg = if rp.widen_arg { format!("{arg} w") } else { arg.to_string() };
         s.push_str(&m.replace("{ARG}", &arg));
-        resolve_markers(&s, rp.alt_subpat, rp.full_for_partial, rp.bind_wildcards)
+        resolve_markers(&s, rp.alt_subpat, rp.full_for_partial, rp.bind_wildcards, rp.unrepeat)
     }
     pub fn size(&self) -> usize {
         self.defs.iter().map(|(_, d)| d.size()).sum::<usize>() + self.main.size() + self.aliases.len()
@@ -559,6 +569,39 @@ const LABELS: [&str; 5] = ["a", "b", "c", "x", "y"];
 pub struct Bind {
     pub name: String,
     pub ty: GTy,
+}
+
+/// remove the binder `name` from a pattern source: a plain binder becomes a wildcard, a
+/// type-ascribed binder `(T)name` becomes the type pattern `T`
+fn drop_binder(p: &str, name: &str) -> String {
+    let typed = format!("){name}");
+    if let Some(pos) = p.find(&typed) {
+        // matching opening parenthesis
+        let bytes: Vec<char> = p.chars().collect();
+        let close = p[..pos].chars().count();
+        let mut depth = 0i32;
+        let mut open = None;
+        for i in (0..=close).rev() {
+            match bytes[i] {
+                ')' => depth += 1,
+                '(' => {
+                    depth -= 1;
+                    if depth == 0 {
+                        open = Some(i);
+                        break;
+                    }
+                }
+                _ => {}
+            }
+        }
+        if let Some(o) = open {
+            let inner: String = bytes[o + 1..close].iter().collect();
+            let before: String = bytes[..o].iter().collect();
+            let after: String = bytes[close + 1 + name.chars().count()..].iter().collect();
+            return format!("{before}{inner}{after}");
+        }
+    }
+    p.replace(name, WILD)
 }
 
 fn bind_var(g: &mut G, binds: &mut Vec<Bind>, ty: &GTy) -> String {
@@ -1164,7 +1207,7 @@ impl<'a> G<'a> {
                     p = p.replacen(WILD, &extra, 1);
                 } else {
                     let b = binds.remove(0);
-                    p = p.replace(&b.name, WILD);
+                    p = drop_binder(&p, &b.name);
                 }
             }
             for i in Self::liberal_cover(&p, &variants) {
